@@ -240,42 +240,40 @@ func ruleUnionTagDecision(c *core.Ctx) {
 				var seen types.Object
 				testOK, accAfter := false, false
 				var testPos token.Pos
+				// the overlap test `kinds & seen != 0` (or `== 0`), wherever it is evaluated: an if condition, an explaining
+				// local, a conjunct of an accumulated flag (`distinct = distinct && kinds&seen == 0`)
+				ast.Inspect(body, func(m ast.Node) bool {
+					be, ok := m.(*ast.BinaryExpr)
+					if !ok || (be.Op != token.NEQ && be.Op != token.EQL) || testOK {
+						return true
+					}
+					var and *ast.BinaryExpr
+					var zeroSide ast.Expr
+					if a, ok := ast.Unparen(be.X).(*ast.BinaryExpr); ok && a.Op == token.AND {
+						and, zeroSide = a, be.Y
+					} else if a, ok := ast.Unparen(be.Y).(*ast.BinaryExpr); ok && a.Op == token.AND {
+						and, zeroSide = a, be.X
+					}
+					if and == nil {
+						return true
+					}
+					a, b := identObj(info, and.X), identObj(info, and.Y)
+					zero, isZero := constInt(info, zeroSide)
+					if isZero && zero == 0 && (a == this || b == this) && a != b {
+						other := a
+						if a == this {
+							other = b
+						}
+						if v, ok := other.(*types.Var); ok && !strings.HasPrefix(v.Name(), "Json") && other.Pkg() == p.Types {
+							seen = other
+							testOK = true
+							testPos = be.Pos()
+						}
+					}
+					return true
+				})
 				for _, st := range flattenStmts(body.List) {
 					switch s := st.(type) {
-					case *ast.IfStmt:
-						// the test may be named by an explaining local (`overlaps := seen&kinds != 0; if overlaps {`)
-						cond := ast.Unparen(s.Cond)
-						if id, isId := cond.(*ast.Ident); isId {
-							cond = ast.Unparen(singleDefRHS(info, body, id))
-						}
-						be, ok := cond.(*ast.BinaryExpr)
-						if !ok || be.Op != token.NEQ {
-							continue
-						}
-						// kinds & seen != 0 (either operand order, zero on either side)
-						var and *ast.BinaryExpr
-						var zeroSide ast.Expr
-						if a, ok := ast.Unparen(be.X).(*ast.BinaryExpr); ok && a.Op == token.AND {
-							and, zeroSide = a, be.Y
-						} else if a, ok := ast.Unparen(be.Y).(*ast.BinaryExpr); ok && a.Op == token.AND {
-							and, zeroSide = a, be.X
-						}
-						if and == nil {
-							continue
-						}
-						a, b := identObj(info, and.X), identObj(info, and.Y)
-						zero, isZero := constInt(info, zeroSide)
-						if isZero && zero == 0 && (a == this || b == this) && a != b {
-							other := a
-							if a == this {
-								other = b
-							}
-							if v, ok := other.(*types.Var); ok && !strings.HasPrefix(v.Name(), "Json") && other.Pkg() == p.Types {
-								seen = other
-								testOK = true
-								testPos = s.Pos()
-							}
-						}
 					case *ast.AssignStmt:
 						if len(s.Lhs) == 1 && len(s.Rhs) == 1 && seen != nil && identObj(info, s.Lhs[0]) == seen {
 							acc := false
